@@ -541,7 +541,7 @@ func (ex *Exec) lookup(st *State, fr *Frame, in *ssa.Lookup) bool {
 	}
 	C := ex.C
 	m := x.(MapRef)
-	ex.globalAccess(st, m.Obj, false, fmt.Sprintf("map%d", m.Obj))
+	ex.globalAccess(st, m.Obj, -1, false)
 	key := ex.get(st, fr, in.Index)
 	ex.checkHashable(st, key)
 	md := ex.mapData(st, m)
@@ -632,7 +632,7 @@ func (ex *Exec) mapUpdate(st *State, m MapRef, key, val Value) {
 	if m.Obj == 0 {
 		ex.goPanic(st, "assignment to entry in nil map")
 	}
-	ex.globalAccess(st, m.Obj, true, fmt.Sprintf("map%d", m.Obj))
+	ex.globalAccess(st, m.Obj, -1, true)
 	ex.checkHashable(st, key)
 	md := st.Heap.get(m.Obj).Map
 	for i := range md.Keys {
@@ -666,7 +666,7 @@ func (ex *Exec) mapDelete(st *State, m MapRef, key Value) {
 	if m.Obj == 0 {
 		return
 	}
-	ex.globalAccess(st, m.Obj, true, fmt.Sprintf("map%d", m.Obj))
+	ex.globalAccess(st, m.Obj, -1, true)
 	md := st.Heap.get(m.Obj).Map
 	var nk, nv []Value
 	for i := range md.Keys {
@@ -931,6 +931,7 @@ func (ex *Exec) builtin(st *State, name string, args []Value, call ssa.CallInstr
 			ex.goPanic(st, "close of closed channel")
 		}
 		cd.Closed = true
+		ex.hbRelease(st, fmt.Sprintf("ch%d", c.Obj))
 		for ex.wake(st, c.Obj, GBlockedRecv) {
 		}
 		return nil
